@@ -13,10 +13,20 @@ StateManager through set_current/commit_current_to_history and compute_logw_and_
 compared with the rationals (relative 1e-12), then replayed through the images of the case under the
 spec's shift invariance (|c| up to 1e6) and through a +-1e6 within-history spread family whose oracle
 is the spec's enclosure invariant.
+
+Object reuse ("for every STORED history"): the spec's Replace / Commit actions (Reuse = TRUE model,
+invariant CurrentHistoryOnly; the code-shaped variant StaleMix, which keeps the beta_final-independent
+part across a replacement, must be refuted).  Binding: on ONE StateManager, history h1 is built and
+queried, h2 is installed through update_from_dict / save_state+load_state, queried at two temperatures
+(and through compute_results), one more batch is committed and queried again - every answer compared
+with the spec's rationals of the history stored at that moment.  At Sampler level a finished run loads
+its own earlier checkpoints and posterior(return_logw=True) / results() must equal the code's answer
+on a fresh StateManager rebuilt by commits from the loaded history (the path bound to the spec above).
 """
 import json
 import math
 import os
+import shutil
 import sys
 from concurrent.futures import ThreadPoolExecutor
 
@@ -27,10 +37,11 @@ os.environ.setdefault("MKL_NUM_THREADS", "1")
 sys.path.insert(0, os.path.dirname(os.path.dirname(os.path.abspath(__file__))))
 from vlib import core, tla, tlc  # noqa: E402
 
-INVARIANTS = ["TypeOK", "Formula", "SumOne", "PermInvariant", "ShiftInvariant", "SplitInvariant",
+INVARIANTS = ["TypeOK", "CurrentHistoryOnly", "Formula", "SumOne", "PermInvariant", "ShiftInvariant", "SplitInvariant",
               "SingleBatchSNIS", "Enclosure"]
 ACTIONS = ["Init", "Mix", "Weigh", "Normalise"]
 WRONG = ["NoLogZ", "NoMixW", "MixT", "MeanT", "MaxNorm"]
+REUSE_MODEL = dict(ts="{1, 2}", nmax=1, kmax=2, shiftmax=4, reuse="TRUE", replmod=8, workers=4)
 
 CFG = """INIT Init
 NEXT Next
@@ -46,6 +57,8 @@ CONSTANTS
   SampleMod = {mod}
   BatchMod = {bmod}
   SampleSalt = {salt}
+  Reuse = {reuse}
+  ReplMod = {replmod}
 {invs}
 CHECK_DEADLOCK FALSE
 """
@@ -62,6 +75,7 @@ StateManager = None
 def cfg_text(c, variant="intended", invs=INVARIANTS):
     return CFG.format(ts=c["ts"], nmax=c["nmax"], kmax=c["kmax"], shiftmax=c["shiftmax"], variant=variant,
                       mod=c.get("mod", 1), bmod=c.get("bmod", 1), salt=c.get("salt", 0),
+                      reuse=c.get("reuse", "FALSE"), replmod=c.get("replmod", 1),
                       invs="\n".join("INVARIANT " + i for i in invs))
 
 
@@ -246,10 +260,12 @@ def replay_case(st, idx):
 
 
 def worker(args):
-    base_idx, blocks = args
-    res = {"cases": 0, "evals": 0, "nontrivial": 0, "viol": [], "nviol": 0, "byT": {}, "base_err": 0.0, "shift_err": 0.0, "sample": None}
+    base_idx, blocks, collect = args
+    res = {"table": [], "cases": 0, "evals": 0, "nontrivial": 0, "viol": [], "nviol": 0, "byT": {}, "base_err": 0.0, "shift_err": 0.0, "sample": None}
     for i, block in enumerate(blocks):
         st = tla.parse_state_block(block)
+        if collect:
+            res["table"].append((hkey(st["hist"]), st["bf"], st["w"], st["z"], st["W"]))
         out, evals, nt, stats, case = replay_case(st, base_idx + i)
         res["cases"] += 1
         res["evals"] += evals
@@ -267,8 +283,8 @@ def worker(args):
     return res
 
 
-def done_chunks(path, chunk=400):
-    """Stream the TLC dump; yield (first index, [state blocks with pc = "done"])."""
+def done_chunks(path, chunk=400, collect=False):
+    """Stream the TLC dump; yield (first index, [state blocks with pc = "done"], collect flag)."""
     hdr = tla._STATE_HDR
     cur, blocks, idx = [], [], 0
 
@@ -284,14 +300,221 @@ def done_chunks(path, chunk=400):
             if hdr.match(ln):
                 flush_state()
                 if len(blocks) >= chunk:
-                    yield idx, blocks
+                    yield idx, blocks, collect
                     idx += len(blocks)
                     blocks = []
             elif ln.startswith("/\\") or (cur and ln.strip()):
                 cur.append(ln)
         flush_state()
     if blocks:
-        yield idx, blocks
+        yield idx, blocks, collect
+
+
+# ------------------------------------------------------------------------------------------------
+# object reuse: one StateManager, the stored history changes between queries
+
+def hkey(hist):
+    return tuple((b["n"], b["b"], b["m"], tuple(b["ks"])) for b in hist)
+
+
+def key_batches(hk):
+    return [(np.array(ks, dtype=float) * LN2, b / 2.0, m * LN2) for (_, b, m, ks) in hk]
+
+
+def against_spec(tag, sm, hk, bf, table, out, ctx):
+    """Query the living object and compare with the spec's rationals for the history stored NOW."""
+    w, z, W = table[(hk, bf)]
+    N = sum(b[0] for b in hk)
+    w_exp = np.array([a / b for a, b in w])
+    W_exp = np.array([a / b for a, b in W])
+    z_exp = z[0] / z[1]
+    lw_n, lz_n, lw_u, lz_u = call(sm, bf / 2.0)
+    rp = dict(ctx, queried_bf=bf, expected={"w": [list(q) for q in w], "z": list(z), "W": [list(q) for q in W]},
+              got={"logw_norm": lw_n.tolist(), "logw_unnorm": lw_u.tolist(), "logz": lz_u})
+    if lw_n.shape != (N,) or lw_u.shape != (N,):
+        out.append((tag + ":length", f"{lw_n.size} log-weights for a stored history of {N} samples", rp))
+        return 2
+    with np.errstate(all="ignore"):
+        eu = float(np.max(np.abs(np.exp(lw_u) / w_exp - 1.0)))
+        en = float(np.max(np.abs(np.exp(lw_n) / W_exp - 1.0)))
+        ez = max(abs(math.exp(lz_u) / z_exp - 1.0), abs(math.exp(lz_n) / z_exp - 1.0)) if math.isfinite(lz_u) and math.isfinite(lz_n) else math.inf
+    if not (eu <= REL and en <= REL):
+        out.append((tag + ":weights", f"weights are not the formula on the stored history (rel err unnormalised {eu:.3g}, normalised {en:.3g})", rp))
+    if not ez <= REL:
+        out.append((tag + ":evidence", f"exp(logz) = {math.exp(lz_u) if math.isfinite(lz_u) else lz_u!r}, spec {z[0]}/{z[1]} on the stored history (rel err {ez:.3g})", rp))
+    return 2
+
+
+def results_against_spec(tag, sm, hk, table, out, ctx):
+    """compute_results()['logw'] = normalised log-weights at beta = 1 of the history stored now (equal batch sizes only:
+    compute_results stacks the batches)."""
+    if len({b[0] for b in hk}) != 1:
+        return 0
+    W = table[(hk, 2)][2]
+    N = sum(b[0] for b in hk)
+    lw = np.asarray(sm.compute_results()["logw"], dtype=float)
+    rp = dict(ctx, expected={"W": [list(q) for q in W]}, got={"logw": lw.tolist()})
+    if lw.shape != (N,):
+        out.append((tag + ":results", f"compute_results(): {lw.size} log-weights for a stored history of {N} samples", rp))
+        return 1
+    with np.errstate(all="ignore"):
+        en = float(np.max(np.abs(np.exp(lw) / np.array([a / b for a, b in W]) - 1.0)))
+    if not en <= REL:
+        out.append((tag + ":results", f"compute_results()['logw'] is not the formula on the stored history (rel err {en:.3g})", rp))
+    return 1
+
+
+def install(route, sm, hk, tmpdir):
+    import contextlib
+    import io
+
+    other = build(key_batches(hk))
+    if route == "update_from_dict":
+        sm.update_from_dict(other.to_dict())
+    elif route == "load_state":
+        path = os.path.join(tmpdir, "h2.state")
+        with contextlib.redirect_stdout(io.StringIO()):
+            other.save_state(path)
+        sm.load_state(path)
+    else:
+        raise ValueError(route)
+
+
+def reuse_sequence(seq, table, tmpdir):
+    """seq = (route, h1, bf1, h2, bf2, bf3, extra batch or None).  Returns (violations, evaluations)."""
+    route, h1, bf1, h2, bf2, bf3, bt = seq
+    out = []
+    ev = 0
+    ctx = {"sequence": {"route": route, "h1": h1, "bf1": bf1, "h2": h2, "bf2": bf2, "bf3": bf3, "commit": bt}}
+    try:
+        sm = build(key_batches(h1))
+        ev += against_spec("reuse:first-query", sm, h1, bf1, table, out, ctx)
+        ev += results_against_spec("reuse:first-query", sm, h1, table, out, ctx)
+        install(route, sm, h2, tmpdir)
+        n_now = len(sm.get_history("logl", flat=True))
+        if sm.get_history_length() != len(h2) or n_now != sum(b[0] for b in h2):
+            out.append((f"reuse:{route}:history-not-installed",
+                        f"after {route} the object stores {sm.get_history_length()} batches / {n_now} samples, the installed history has {len(h2)} / {sum(b[0] for b in h2)}", ctx))
+            return out, ev
+        ev += against_spec(f"reuse:{route}", sm, h2, bf2, table, out, ctx)
+        ev += against_spec(f"reuse:{route}", sm, h2, bf3, table, out, ctx)
+        ev += results_against_spec(f"reuse:{route}", sm, h2, table, out, ctx)
+        if bt is not None:
+            n, b, m, ks = bt
+            pts = np.full((n, 1), 0.5)
+            for k, v in (("u", pts), ("x", pts), ("logl", np.array(ks, dtype=float) * LN2), ("beta", b / 2.0), ("logz", m * LN2), ("iter", len(h2) + 1)):
+                sm.set_current(k, v)
+            sm.commit_current_to_history()
+            h3 = h2 + (bt,)
+            ev += against_spec(f"reuse:commit-after-{route}", sm, h3, bf2, table, out, ctx)
+            ev += results_against_spec(f"reuse:commit-after-{route}", sm, h3, table, out, ctx)
+    except Exception as ex:
+        out.append((f"reuse:{route}:raised", f"raised {ex!r}", ctx))
+    return out, ev
+
+
+TABLE = None      # (history key, bf) -> (w, z, W), filled from the TLC dump before the reuse pool is forked
+
+
+def reuse_worker(args):
+    seqs, tmpdir = args
+    tmpdir = os.path.join(tmpdir, f"w{os.getpid()}")
+    os.makedirs(tmpdir, exist_ok=True)
+    out, ev = [], 0
+    for sq in seqs:
+        o, e = reuse_sequence(sq, TABLE, tmpdir)
+        ev += e
+        out += o
+    return out[:12], len(out), ev, len(seqs)
+
+
+def make_sequences(table, rng, n_update, n_file):
+    hists = sorted({hk for hk, _ in table})
+    by_len = {}
+    for hk in hists:
+        by_len.setdefault(len(hk), []).append(hk)
+    singles = [hk[0] for hk in by_len.get(1, [])]
+    hset = set(hists)
+    seqs = []
+    for route, n in (("update_from_dict", n_update), ("load_state", n_file)):
+        for i in range(n):
+            h1 = hists[rng.randint(len(hists))]
+            while True:
+                h2 = hists[rng.randint(len(hists))]
+                if h2 != h1:
+                    break
+            if i % 3 == 0:      # same number of samples, other content: nothing but the values can reveal staleness
+                same = [h for h in (hists[rng.randint(len(hists))] for _ in range(40)) if h != h1 and sum(b[0] for b in h) == sum(b[0] for b in h1)]
+                if same:
+                    h2 = same[0]
+            bf1, bf2 = int(rng.randint(3)), int(rng.randint(3))
+            bf3 = (bf2 + 1 + int(rng.randint(2))) % 3
+            bt = None
+            if singles:
+                cand = singles[rng.randint(len(singles))]
+                if h2 + (cand,) in hset:
+                    bt = cand
+            seqs.append((route, h1, bf1, h2, bf2, bf3, bt))
+    return seqs
+
+
+def sampler_reuse(seed, tmpdir):
+    """A finished Sampler loads its own EARLIER checkpoints; posterior/results must describe the loaded history.
+    Reference: the code itself on a fresh StateManager rebuilt by commits from the loaded history (the path bound
+    to the spec's rationals by the base family)."""
+    import contextlib
+    import io
+
+    from tempest import Sampler
+
+    def prior_transform(u):
+        return 20.0 * u - 10.0
+
+    def log_likelihood(x):
+        return -0.5 * np.sum(x ** 2, axis=-1) - 0.5 * x.shape[-1] * np.log(2 * np.pi)
+
+    out, info = [], {"loads": 0, "inconclusive": []}
+    np.random.seed(seed)
+    s = Sampler(prior_transform, log_likelihood, n_dim=2, vectorize=True, n_particles=32, clustering=False,
+                random_state=seed, output_dir=tmpdir)
+    with contextlib.redirect_stdout(io.StringIO()), contextlib.redirect_stderr(io.StringIO()):
+        s.run(n_total=128, progress=False, save_every=1)
+        s.posterior()
+        s.results()
+    n_final = len(s.state.get_history("logl", flat=True))
+    info["final_samples"] = n_final
+    idx = sorted(int(f.split("_")[1].split(".")[0]) for f in os.listdir(tmpdir) if f.startswith("ps_") and f.endswith(".state") and f.split("_")[1].split(".")[0].isdigit())
+    earlier = [i for i in idx if i >= 2][:-1]
+    picks = sorted({earlier[len(earlier) // 2], earlier[0]}) if earlier else []
+    for i in picks:
+        ctx = {"sampler": {"seed": seed, "checkpoint": f"ps_{i}.state", "final_samples": n_final}}
+        try:
+            with contextlib.redirect_stdout(io.StringIO()), contextlib.redirect_stderr(io.StringIO()):
+                s.load_state(os.path.join(tmpdir, f"ps_{i}.state"))
+            T = s.state.get_history_length()
+            n_ck = len(s.state.get_history("logl", flat=True))
+            if n_ck >= n_final:
+                info["inconclusive"].append(f"ps_{i}: load_state left {n_ck} samples (final {n_final}); nothing to distinguish")
+                continue
+            fresh = build([(s.state.get_history("logl", index=t), float(s.state.get_history("beta", index=t)),
+                            float(s.state.get_history("logz", index=t))) for t in range(T)])
+            ref_w, ref_z = fresh.compute_logw_and_logz(1.0)
+            info["loads"] += 1
+            info.setdefault("loaded_samples", []).append(n_ck)
+            got = {"posterior": np.asarray(s.posterior(resample=False, trim_importance_weights=False, return_logw=True)[-1], dtype=float),
+                   "results": np.asarray(s.results()["logw"], dtype=float),
+                   "state": np.asarray(s.state.compute_logw_and_logz(1.0)[0], dtype=float)}
+            for name, lw in got.items():
+                if lw.shape != ref_w.shape:
+                    out.append(("reuse:sampler-load_state:length", f"{name}: {lw.size} log-weights after loading ps_{i}.state which stores {n_ck} samples", ctx))
+                elif not np.all(np.abs(lw - ref_w) <= REL * (1.0 + np.abs(ref_w))):
+                    out.append(("reuse:sampler-load_state:weights", f"{name}: log-weights after loading ps_{i}.state differ from the formula on the loaded history (max diff {float(np.max(np.abs(lw - ref_w))):.3g})", ctx))
+            lz = float(s.state.compute_logw_and_logz(1.0)[1])
+            if not abs(lz - ref_z) <= REL * (1.0 + abs(ref_z)):
+                out.append(("reuse:sampler-load_state:evidence", f"logz {lz!r} after loading ps_{i}.state, formula on the loaded history gives {float(ref_z)!r}", ctx))
+        except Exception as ex:
+            out.append(("reuse:sampler-load_state:raised", f"loading ps_{i}.state into the finished sampler raised {ex!r}", ctx))
+    return out, info
 
 
 def count_pcs(path):
@@ -340,6 +563,37 @@ def main():
     if ck.args.replay:
         with open(ck.args.replay) as f:
             rp = json.load(f)["replay"]
+        if "sampler" in rp:
+            tmp = tlc.scratch_dir("c04s_")
+            try:
+                out, info = sampler_reuse(rp["sampler"]["seed"], tmp)
+            finally:
+                shutil.rmtree(tmp, ignore_errors=True)
+            for key, what, r in out:
+                ck.violation(key, what, r)
+            ck.finish({"states": 1, "transitions": 1, "traces_validated_against_impl": info["loads"], "replayed_file": ck.args.replay})
+        if "sequence" in rp:
+            q = rp["sequence"]
+            tup = lambda h: tuple((b[0], b[1], b[2], tuple(b[3])) for b in h)  # noqa: E731
+            seq = (q["route"], tup(q["h1"]), q["bf1"], tup(q["h2"]), q["bf2"], q["bf3"], tup([q["commit"]])[0] if q["commit"] else None)
+            allb = list(seq[1]) + list(seq[3]) + ([seq[6]] if seq[6] else [])
+            kmax = max(2, max(abs(k) for b in allb for k in b[3]))
+            consts = dict(ts="{1, 2}", nmax=max(b[0] for b in allb), kmax=kmax, shiftmax=4 if kmax <= 2 else 2, workers=8)
+            r = tlc.run_tlc("MISWeights", cfg_text(consts), dump=True, workers=8)     # the oracle: TLC's rationals
+            table = {}
+            for _, blocks, _ in done_chunks(r.dump_path):
+                for blk in blocks:
+                    st = tla.parse_state_block(blk)
+                    table[(hkey(st["hist"]), st["bf"])] = (st["w"], st["z"], st["W"])
+            r.cleanup()
+            tmp = tlc.scratch_dir("c04s_")
+            try:
+                out, evals = reuse_sequence(seq, table, tmp)
+            finally:
+                shutil.rmtree(tmp, ignore_errors=True)
+            for key, what, rr in out:
+                ck.violation(key, what, rr)
+            ck.finish({"states": r.distinct, "transitions": r.generated, "traces_validated_against_impl": 1, "evaluations": evals, "replayed_file": ck.args.replay})
         c = rp["case"]
         st = {"hist": tuple(dict(n=b["n"], b=b["b"], m=b["m"], ks=tuple(b["ks"])) for b in c["hist"]), "bf": c["bf"],
               "w": tuple(tuple(q) for q in c["w"]), "z": tuple(c["z"]), "W": tuple(tuple(q) for q in c["W"])}
@@ -361,13 +615,19 @@ def main():
 
     def run_wrong(v):
         # without the declarative Formula invariant: the behavioural properties alone must pin the formula
-        return tlc.run_tlc("MISWeights", cfg_text(small, variant=v, invs=[i for i in INVARIANTS if i != "Formula"]), workers=2)
+        base = REUSE_MODEL if v == "StaleMix" else small
+        return tlc.run_tlc("MISWeights", cfg_text(base, variant=v, invs=[i for i in INVARIANTS if i != "Formula"]), workers=2)
 
-    with ThreadPoolExecutor(max_workers=len(mods) + len(WRONG)) as ex:
+    def run_reuse():
+        return tlc.run_tlc("MISWeights", cfg_text(REUSE_MODEL), coverage=True, workers=REUSE_MODEL["workers"])
+
+    with ThreadPoolExecutor(max_workers=len(mods) + len(WRONG) + 2) as ex:
         fut_i = [ex.submit(run_intended, m) for m in mods]
-        fut_w = {v: ex.submit(run_wrong, v) for v in WRONG}
+        fut_w = {v: ex.submit(run_wrong, v) for v in WRONG + ["StaleMix"]}
+        fut_r = ex.submit(run_reuse)
         results = [f.result() for f in fut_i]
         wrong = {v: f.result() for v, f in fut_w.items()}
+        reuse_res = fut_r.result()
 
     refuted = {}
     for v, r in wrong.items():
@@ -376,8 +636,22 @@ def main():
             raise RuntimeError(f"vacuity: TLC did not refute the seeded wrong formula {v} (status {r.status} {r.violated})")
         refuted[v] = r.violated
 
+    if wrong["StaleMix"].violated != "CurrentHistoryOnly":
+        raise RuntimeError(f"the stale-cache variant was refuted by {wrong['StaleMix'].violated}, expected CurrentHistoryOnly")
+
     states = transitions = 0
     spec_failed = False
+    reuse_res.cleanup()
+    if reuse_res.status != "ok":
+        spec_failed = True
+        ck.violation("spec:reuse:" + reuse_res.violated, f"TLC: {reuse_res.violated} violated on MISWeights.tla (object-reuse model)",
+                     {"trace": reuse_res.error_trace, "model": REUSE_MODEL})
+    else:
+        for a in ACTIONS + ["Replace", "Commit"]:
+            if reuse_res.coverage.get(a, (0, 0))[1] <= 0:
+                raise RuntimeError(f"vacuity: action {a} has zero coverage in the object-reuse model: {reuse_res.coverage}")
+    states += reuse_res.distinct
+    transitions += reuse_res.generated
     for (name, c, _), r in zip(mods, results):
         states += r.distinct
         transitions += r.generated
@@ -402,13 +676,17 @@ def main():
                      "states_by_pc": pcs, "tlc_coverage": {k: list(v) for k, v in r.coverage.items()}}
 
     # ---- replay every completed computation into the real StateManager
+    global TABLE
     tot = {"cases": 0, "evals": 0, "nontrivial": 0, "nviol": 0, "byT": {}, "base_err": 0.0, "shift_err": 0.0}
+    table = {}
     ctx = mp.get_context("fork")
     with ctx.Pool(nprocs) as pool:
-        for (name, c, _), r in zip(mods, results):
+        for mi, ((name, c, _), r) in enumerate(zip(mods, results)):
             n_model = 0
-            for res in pool.imap_unordered(worker, done_chunks(r.dump_path)):
+            for res in pool.imap_unordered(worker, done_chunks(r.dump_path, collect=(mi == 0))):
                 n_model += res["cases"]
+                for hk, f, w, z, W in res["table"]:
+                    table[(hk, f)] = (w, z, W)
                 for k in ("cases", "evals", "nontrivial", "nviol"):
                     tot[k] += res[k]
                 for T, n in res["byT"].items():
@@ -428,6 +706,44 @@ def main():
             cov[name]["cases_replayed"] = n_model
             r.cleanup()
 
+    # ---- object reuse: one StateManager whose stored history is replaced / extended between queries
+    if len(table) != cov[mods[0][0]]["states_by_pc"]["done"]:
+        raise RuntimeError(f"oracle table has {len(table)} entries, model {mods[0][0]} has {cov[mods[0][0]]['states_by_pc']['done']} cases")
+    TABLE = table
+    rng = np.random.RandomState(ck.seed + 404)
+    n_update, n_file = (1500, 150) if ck.tier == "quick" else (30000, 1500)
+    seqs = make_sequences(table, rng, n_update, n_file)
+    reuse = {"sequences": 0, "queries": 0, "with_commit": sum(1 for q in seqs if q[6] is not None),
+             "same_sample_count": sum(1 for q in seqs if sum(b[0] for b in q[1]) == sum(b[0] for b in q[3])),
+             "by_route": {"update_from_dict": n_update, "load_state": n_file}, "oracle_model": mods[0][0]}
+    tmp = tlc.scratch_dir("c04s_")
+    try:
+        with ctx.Pool(nprocs) as pool:     # forked now: the workers inherit TABLE
+            step = max(1, len(seqs) // (4 * nprocs))
+            for vio, nvio, ev, n in pool.imap_unordered(reuse_worker, [(seqs[i:i + step], tmp) for i in range(0, len(seqs), step)]):
+                reuse["sequences"] += n
+                reuse["queries"] += ev
+                for key, what, rp in vio:
+                    ck.violation(key, what, rp)
+                if nvio > len(vio):
+                    ck.violations += nvio - len(vio)
+        sam_out, sam_info = [], {"runs": 0}
+        for k in range(1 if ck.tier == "quick" else 4):
+            d = os.path.join(tmp, f"sampler{k}")
+            os.makedirs(d)
+            o, info = sampler_reuse(ck.seed + k, d)
+            sam_out += o
+            sam_info["runs"] += 1
+            for kk, v in info.items():
+                sam_info.setdefault(kk, []).append(v)
+        for key, what, rp in sam_out:
+            ck.violation(key, what, rp)
+    finally:
+        shutil.rmtree(tmp, ignore_errors=True)
+    reuse["sampler_level"] = sam_info
+    reuse["tlc_model"] = {"constants": REUSE_MODEL, "distinct_states": reuse_res.distinct, "generated": reuse_res.generated,
+                          "tlc_coverage": {k: list(v) for k, v in reuse_res.coverage.items()}}
+
     ck.assumptions += [
         "numpy float64 exp/log/logaddexp are accurate to a few ulp (the only inexact operations on the replayed witnesses)",
         "ln 2 is represented by the same double everywhere, so k*LN2 witnesses behave as exact powers of two up to ~1e-15 relative",
@@ -436,12 +752,15 @@ def main():
     ck.finish({
         "states": states,
         "transitions": transitions,
-        "traces_validated_against_impl": tot["cases"],
-        "evaluations": tot["evals"],
+        "traces_validated_against_impl": tot["cases"] + reuse["sequences"],
+        "evaluations": tot["evals"] + reuse["queries"],
         "distinct_nontrivial": tot["nontrivial"],
         "rule": "each pc=done state of MISWeights.tla (history, bf, exact w, Z, W) is one case; non-trivial = T >= 2 with at "
                 "least two distinct (beta_t, logZ_t) components and non-uniform expected weights; every case is replayed at "
-                "base scale (normalize on/off), under 8 likelihood shifts |c| up to 1e6 and 2 spread images (+-1e6 inside one history)",
+                "base scale (normalize on/off), under 8 likelihood shifts |c| up to 1e6 and 2 spread images (+-1e6 inside one history); "
+                "object reuse: seeded sequences h1 -> query -> replace by h2 (update_from_dict | save_state+load_state) -> 2 queries "
+                "+ compute_results -> commit -> query on ONE StateManager, each answer against the spec's rationals of the history "
+                "stored at that moment (oracle = the exhaustive T<=2 model's dump), plus finished Sampler runs loading their own earlier checkpoints",
         "exhaustive": all(e for _, _, e in mods),
         "exhaustive_models": [n for n, _, e in mods if e],
         "sampled_models": [n for n, _, e in mods if not e],
@@ -449,6 +768,7 @@ def main():
         "max_rel_err_base": tot["base_err"],
         "max_abs_err_over_c_shift": tot["shift_err"],
         "wrong_formulas_refuted_by_tlc": refuted,
+        "object_reuse": reuse,
         "models": cov,
         "invariants": INVARIANTS,
     })
